@@ -560,13 +560,13 @@ type c05MemberCase struct {
 func c05MemberType(kind string) *dm.Type {
 	switch kind {
 	case "enumeration":
-		return &dm.Type{Base: "enumeration", Enums: []dm.EnumDef{{"red", 1}, {"green", 3}, {"blue", 4}}}
+		return &dm.Type{Base: "enumeration", Enums: []dm.EnumDef{{Name: "red", Value: 1}, {Name: "green", Value: 3}, {Name: "blue", Value: 4}}}
 	case "bits":
-		return &dm.Type{Base: "bits", Bits: []dm.BitDef{{"b-one", 1}, {"two", 3}, {"three", 6}}}
+		return &dm.Type{Base: "bits", Bits: []dm.BitDef{{Name: "b-one", Pos: 1}, {Name: "two", Pos: 3}, {Name: "three", Pos: 6}}}
 	case "identityref":
 		return &dm.Type{Base: "identityref", IdBase: "idbase", Idents: []string{"id-a", "id-b", "id-c"}}
 	}
-	return &dm.Type{Base: "union", Members: []*dm.Type{{Base: "int8"}, {Base: "enumeration", Enums: []dm.EnumDef{{"red", 1}, {"green", 3}}}}}
+	return &dm.Type{Base: "union", Members: []*dm.Type{{Base: "int8"}, {Base: "enumeration", Enums: []dm.EnumDef{{Name: "red", Value: 1}, {Name: "green", Value: 3}}}}}
 }
 
 var c05MemberValues = map[string][]string{
